@@ -20,8 +20,9 @@ import (
 )
 
 // crashChildMain: run a generated workload against a SQLite file and acknowledge every step on stdout:
-//   B <op term>          right before the operation is issued
-//   A <(op, obs) entry>  right after it returned and was observed
+//
+//	B <op term>          right before the operation is issued
+//	A <(op, obs) entry>  right after it returned and was observed
 func crashChildMain(args []string) {
 	fs := flag.NewFlagSet("crash-child", flag.ExitOnError)
 	seed := fs.Int64("seed", 1, "PRNG seed")
